@@ -29,18 +29,21 @@ PINV_ALGS = ["omitted", "Auto", "LSTSQ", "CG"]
 
 @st.composite
 def cases(draw, tier):
-    if draw(st.integers(1, 1000 if tier == "quick" else 250)) == 1:
+    if draw(st.integers(1, 400 if tier == "quick" else 200)) == 1:
         return {"fn": draw(st.sampled_from(["svd", "pinv"])), "kind": "large", "m": 1001, "n": 1001, "cplx": False, "seed": draw(st.integers(0, 10**5)),
-                "k": draw(st.integers(1, 3)), "alg": draw(st.sampled_from(["Auto(kw)", "Auto(kw)", "omitted"])), "ncol": 0, "tol_exp": -8, "bdt": "same"}
+                "k": draw(st.integers(1, 3)), "alg": draw(st.sampled_from(["Auto(kw)", "Auto(kw)", "omitted"])), "ncol": 0, "tol_exp": -8, "bdt": "same",
+                "warm_wide": draw(st.booleans())}  # the same algorithm object (or the default) first decomposes a 2 x 500001 operator
     fn = draw(st.sampled_from(["svd", "svd", "pinv"]))
     kind = draw(st.sampled_from(["dense", "dense", "dense", "eye", "diag", "smul", "perm", "herm", "psd_ann", "prod", "prod", "sum",
-                                 "dense_spread", "scaled_stiefel", "scaled_stiefel"]))
+                                 "dense_spread", "scaled_stiefel", "scaled_stiefel", "graded_cols"]))
     lim = 8 if tier == "quick" else 12
     m, n = draw(st.integers(1, lim)), draw(st.integers(1, lim))
     if kind == "scaled_stiefel":
         m, n = max(m, n), min(m, n)  # tall (or square): orthonormal columns times a scalar
-    elif kind not in ("dense", "prod", "sum", "dense_spread"):
+    elif kind not in ("dense", "prod", "sum", "dense_spread", "graded_cols"):
         n = m
+    if kind == "graded_cols" and fn == "svd":
+        kind = "dense"
     if kind in ("smul", "perm", "scaled_stiefel") and fn == "svd":
         kind = "diag"  # (all singular values equal: outside the well-separated domain of the svd half)
     case = {"fn": fn, "kind": kind, "m": m, "n": n, "cplx": draw(st.booleans()), "seed": draw(st.integers(0, 10**6)),
@@ -105,6 +108,12 @@ def build(case):
         c = [3.0, 0.25, -2.0, 0.5][seed % 4] * (np.exp(0.7j) if cplx and seed % 3 == 0 else 1.0)
         Qop = (cola.Unitary if m == n and seed % 2 else cola.Stiefel)(ops.Dense(Q))
         return (c * Qop if seed % 5 else Qop / (1.0 / c)), c * Q
+    if kind == "graded_cols":
+        # well-conditioned core with columns rescaled over four decades (badly scaled unknowns); wide, square or tall
+        s = 1.0 * 1.2 ** (np.arange(r) + 0.3 * rng.random(r))
+        M0 = (KR.rand_unitary(m, seed, cplx)[:, :r] * s) @ KR.rand_unitary(n, seed + 1, cplx)[:, :r].conj().T
+        M = M0 * (10.0 ** rng.integers(-2, 3, size=n))[None, :]
+        return ops.Dense(M), M
     if kind == "dense_spread":
         # singular values spread geometrically over 1e3 / 5e3 (squared by the Gram matrices of the Krylov algorithm)
         sp = [1e3, 5e3][seed % 2]
@@ -160,6 +169,10 @@ def check_large(case, out):
     alg = [] if case["alg"] == "omitted" else [L.Auto(max_iters=60, tol=1e-10)]
     try:
         if case["fn"] == "svd":
+            if case.get("warm_wide"):
+                W = cola.ops.Dense(np.random.default_rng(seed + 1).standard_normal((2, 500001)))
+                svd(W, 1, "LM", *alg) if alg else svd(W, 1)
+                out.label("alg_object_reused")
             Uo, So, Vo = svd(A, k, "LM", *alg) if alg else svd(A, k)
             Ud, Sd, Vd = np.asarray(Uo.to_dense()), np.asarray(So.to_dense()), np.asarray(Vo.to_dense())
             Uf, sf, Vhf = np.linalg.svd(M)
